@@ -193,29 +193,9 @@ def project(frames, method, *, d2, cut2):
 
 
 def judge(traces):
-    """Run TraceTracking on a list of trace dicts -> list of (run_verdict, judge_verdict)."""
-    if not traces:
-        return [], None
-    core.WORK.mkdir(exist_ok=True)
-    out = []
-    B = 2000
-    for s in range(0, len(traces), B):
-        batch = traces[s : s + B]
-        tf = core.WORK / f"trace-tracking-{s}.json"
-        tf.write_text(json.dumps(batch))
-        r = core.tlc("TraceTracking", "TraceTracking.cfg", workers=8, env={"TRACE_FILE": str(tf)},
-                     coverage=False, tag=f"tracetracking{s}")
-        tf.unlink()
-        if r.violated or not r.ok:
-            raise core.MachineryError(f"TraceTracking failed: {r.stdout[-1500:]}")
-        verd = {}
-        for v in r.printed:
-            verd[(v["tid"], v["mode"])] = v
-        for i in range(1, len(batch) + 1):
-            if (i, "run") not in verd or (i, "judge") not in verd:
-                raise core.MachineryError(f"no verdict for trace {s + i}")
-            out.append((verd[(i, "run")], verd[(i, "judge")]))
-    return out, r
+    """Run TraceTracking on trace dicts -> ([(run_verdict, judge_verdict)], states)."""
+    rows, states = core.judge_traces("TraceTracking", traces)
+    return [(r["run"], r["judge"]) for r in rows], states
 
 
 LATTICE_CFGS = {
@@ -455,8 +435,8 @@ def random_traces(out, pid, n, seed):
         cases += t
         skipped += s
     verdicts, tlcres = judge([c["trace"] for c in cases])
-    if tlcres is not None:
-        out.parts["trace_validation"] = {"traces": len(cases), "tlc_states_generated": tlcres.generated}
+    out.parts["trace_validation"] = {"traces": len(cases), "tlc_states_generated": tlcres}
+    out.transitions += tlcres
     deviations = 0
     linked = 0
     for c, (vr, vj) in zip(cases, verdicts):
